@@ -57,6 +57,15 @@ def formal_position(fi, e, depth=0):
         if src is not None:
             if idx is None:
                 return formal_position(fi, src, depth + 1)
+            if isinstance(src, (ast.Tuple, ast.List)):
+                # unpacking of a literal tuple: follow the path into it
+                cur = src
+                for i in (idx if isinstance(idx, tuple) else (idx,)):
+                    if isinstance(cur, (ast.Tuple, ast.List)) and isinstance(i, int) and i < len(cur.elts):
+                        cur = cur.elts[i]
+                    else:
+                        return None
+                return formal_position(fi, cur, depth + 1)
             # a, b = X.formal_attributes[:2]  -> position idx ;  (k1, v1), (k2, v2) = X.formal_attributes[:2] -> outer index
             if isinstance(src, ast.Subscript) and isinstance(src.value, ast.Attribute) and src.value.attr in ("formal_attributes", "args"):
                 lo = src.slice.lower.value if isinstance(src.slice, ast.Slice) and src.slice.lower is not None and isinstance(src.slice.lower, ast.Constant) else 0
@@ -212,8 +221,9 @@ def c14_r4(ctx: Ctx, rule):
         dom = g.dominators(labels_excluded=("exc",))
         guards = [g.nodes[i] for i in dom.get(en.id, set()) if g.nodes[i].kind == "test"]
         texts = [norm(t.stmt.test) for t in guards]
-        extra = [t for t in texts if not (" and " in t and all(len(x.strip()) < 12 for x in t.split(" and "))) and "not in node_map" not in t and "not in" not in t]
         res.ob("add_edge is guarded by %s" % texts)
+        # the node map is the table add_edge's end points are looked up in; membership tests on *it* create missing nodes, they do not de-duplicate edges
+        node_maps = {norm(a.value) for a in c.args[:2] if isinstance(a, ast.Subscript)}
         # networkx: an explicit edge key that already exists between the two nodes *updates* that edge instead of adding one
         keyed = [k for k in c.keywords if k.arg == "key"] or ([c.args[2]] if len(c.args) > 2 else [])
         res.ob("add_edge lets networkx number parallel edges itself (no explicit key): %s" % (not keyed))
@@ -221,7 +231,7 @@ def c14_r4(ctx: Ctx, rule):
             kv = keyed[0].value if isinstance(keyed[0], ast.keyword) else keyed[0]
             res.fail(rule.id, "edge-explicit-key::%s" % norm(kv)[:40], ctx.loc(q, c), "add_edge is given the key %s: MultiDiGraph.add_edge updates an existing edge with that key between the same nodes" % norm(kv)[:40],
                      "two relations of one kind (or with one identifier) between the same two elements become a single edge: graph_to_prov loses one of them")
-        value_dedupe = [t for t in texts if " in " in t and "node_map" not in t]
+        value_dedupe = [t for t in texts if " in " in t and not any(t.endswith(" in " + m) or (" in %s " % m) in t or (" in %s)" % m) in t for m in (node_maps or {"node_map"}))]
         for t in value_dedupe:
             res.fail(rule.id, "edge-dedupe::%s" % t[:40], ctx.loc(q, c), "add_edge is skipped under `%s`" % t, "parallel relations collapse into one edge")
     # graph_to_prov: no seen-set
